@@ -103,7 +103,8 @@ GrantOne(x, q) ==
 RECURSIVE GrantAll(_, _)
 GrantAll(x, gs) == IF gs = <<>> THEN x ELSE GrantAll(GrantOne(x, Head(gs)), Tail(gs))
 RECURSIVE CanGrantAll(_, _)
-CanGrantAll(x, gs) == gs = <<>> \/ (IsWaiting(x, Head(gs)) /\ CanGrantAll(GrantOne(x, Head(gs)), Tail(gs)))
+CanGrantAll(x, gs) == IF gs = <<>> THEN TRUE   \* (IF, not \/: TLC explores both sides of a disjunction in an action)
+                      ELSE IsWaiting(x, Head(gs)) /\ CanGrantAll(GrantOne(x, Head(gs)), Tail(gs))
 
 (* Acquire, critical section 1: fast path, or enqueue and then wake the queries gs *)
 AcqOK(x, q, fast, gs) ==
@@ -121,7 +122,7 @@ CancelWakeOK(x, q) == St(x, q) \in {"wait", "granted"}
 CancelWakeF(x, q)  == SetSt(x, q, IF St(x, q) = "wait" THEN "cwait" ELSE "cgranted")
 
 (* Acquire, critical section 2: sawClosed = the code found the channel closed *)
-CancelOK(x, q) == IsWaiting(x, q) \/ IsGranted(x, q)
+CancelOK(x, q) == St(x, q) \in {"wait", "cwait", "granted", "cgranted"}
 CancelF(x, q, sawClosed) ==
     IF IsGranted(x, q)
     THEN IF sawClosed THEN SetSt(x, q, "granted")
@@ -133,7 +134,7 @@ CancelF(x, q, sawClosed) ==
               IN SetSt(x2, q, "cancelled")
 
 (* Acquire returns (nil or ctx.Err()) *)
-RetOK(x, q) == IsGranted(x, q) \/ St(x, q) = "cancelled"
+RetOK(x, q) == St(x, q) \in {"granted", "cgranted", "cancelled"}
 RetF(x, q, isnil) ==
     IF isnil THEN SetSt(Flag(x, ~IsGranted(x, q), "outcome"), q, "held")
     ELSE Flag(x, St(x, q) # "cancelled", "outcome")
@@ -235,7 +236,7 @@ Log(e) == hist' = IF KeepHist THEN Append(hist, e @@ [post |-> Post(s')]) ELSE h
 
 Acquire(q) ==
     /\ St(s, q) = "new"
-    /\ q[2] = 1 \/ St(s, <<q[1], q[2] - 1>>) # "new"      \* a user's queries are issued in index order
+    /\ IF q[2] = 1 THEN TRUE ELSE St(s, <<q[1], q[2] - 1>>) # "new"   \* a user's queries are issued in index order
     /\ LET c == CodeAcquire(C, q) IN
        /\ s' = (IF c.fast THEN RetF(AcqF(s, q, TRUE, <<>>), q, TRUE) ELSE AcqF(s, q, FALSE, c.gs))
        /\ Mech(c)
@@ -292,7 +293,7 @@ Init == /\ \E c \in InitCaps : s = S0(c) /\ hist = << [a |-> "Init", cap |-> c] 
         /\ gorder = 0
         /\ nadj = 0
 
-Next == /\ MaxOps = 0 \/ Len(hist) <= MaxOps
+Next == /\ IF MaxOps = 0 THEN TRUE ELSE Len(hist) <= MaxOps
         /\ \/ \E q \in Queries : Acquire(q) \/ CancelWake(q) \/ CancelCS(q) \/ Wake(q) \/ Release(q)
            \/ \E n \in Caps : Adjust(n)
 
